@@ -233,7 +233,8 @@ MUTATORS = {"append", "extend", "add", "update", "pop", "sort", "reverse", "remo
 # calls that create a fresh object with identity: two textually equal calls are
 # different objects, so the bound variable name is kept as the allocation site
 ALLOCATORS = {"Queue", "JoinableQueue", "SimpleQueue", "Event", "Process", "Lock", "RLock",
-              "SoftFileLock", "FileLock", "Semaphore", "Condition", "Pipe", "Manager", "Pool"}
+              "SoftFileLock", "FileLock", "Semaphore", "Condition", "Pipe", "Manager", "Pool",
+              "zeros", "empty", "ones", "full", "zeros_like", "empty_like", "ones_like"}
 
 
 # ---------------------------------------------------------------------------
@@ -284,14 +285,17 @@ class Evaluator:
     """Evaluate one function body (and, on request, nested closures)."""
 
     def __init__(self, project=None, namedtuples=None, inline=None, module_env=None,
-                 max_inline_depth=3):
+                 max_inline_depth=3, local_module=None, no_inline=()):
         self.project = project
         self.namedtuples = namedtuples or {}
         self.inline = inline or {}      # name -> Func (pure helper functions to inline)
         self.module_env = module_env or {}
         self.max_inline_depth = max_inline_depth
+        self.local_module = local_module   # module name whose top-level helpers are inlined on demand
+        self.no_inline = set(no_inline)
         self._loop_counter = 0
         self._depth = 0
+        self._stack = ()
 
     # -- entry points -------------------------------------------------------
     def run(self, fnode, env=None, args=None):
@@ -765,6 +769,12 @@ class Evaluator:
             target = self.inline[f[1]]
         elif f[0] == "attr" and f[1][0] == "sym" and (f[1][1] + "." + f[2]) in self.inline:
             target = self.inline[f[1][1] + "." + f[2]]
+        if target is None and self.local_module and self.project is not None and f[0] == "sym" \
+                and f[1] not in self.no_inline:
+            q = self.local_module + "." + f[1]
+            cand = self.project.funcs.get(q)
+            if cand is not None and cand.qual not in self._stack and not _is_generator(cand.node):
+                target = cand
         if target is not None and self._depth < self.max_inline_depth and not any(a[0] == "star" for a in args):
             r = self._inline(target, args, kws)
             if r is not None:
@@ -786,8 +796,10 @@ class Evaluator:
             if k not in params or k in binding:
                 return None
             binding[k] = v
-        sub_ev = Evaluator(self.project, self.namedtuples, self.inline, self.module_env, self.max_inline_depth)
+        sub_ev = Evaluator(self.project, self.namedtuples, self.inline, self.module_env, self.max_inline_depth,
+                           self.local_module, self.no_inline)
         sub_ev._depth = self._depth + 1
+        sub_ev._stack = self._stack + ((func.qual,) if hasattr(func, "qual") else ())
         for p in params:
             if p not in binding:
                 if p in defaults:
@@ -811,6 +823,13 @@ class Evaluator:
                 cond = ("op", "and", tuple(x[0] if x[1] else ("op", "not", (x[0],)) for x in conds))
             out = ("ite", cond, v, out)
         return out
+
+
+def _is_generator(fnode):
+    for n in ast.walk(fnode):
+        if isinstance(n, (ast.Yield, ast.YieldFrom)):
+            return True
+    return False
 
 
 def _target_names(t):
@@ -875,13 +894,15 @@ def module_env(project, modname, ev=None):
             except RecursionError:
                 continue
             # keep only values built from numbers, PI and other constants
+            if v[0] == "dict" or (v[0] in ("list", "op") and (v[0] == "op" or not v[1])):
+                continue   # mutable containers keep their identity (name), not a literal value
             if all(a[0] != "sym" or a == PI for a in atoms_of(v) if a[0] == "sym") and \
                     not any(a[0] in ("call", "lambda") for a in atoms_of(v)):
                 env[n.targets[0].id] = v
     return env
 
 
-def make_evaluator(project, modname, inline_names=()):
+def make_evaluator(project, modname, inline_names=(), inline_local=False, no_inline=()):
     """Evaluator for functions of *modname* with module constants folded and
     the named pure helpers (qualified names) inlinable under their local names."""
     nts = find_namedtuples(project)
@@ -900,4 +921,4 @@ def make_evaluator(project, modname, inline_names=()):
                 inline[local] = f
             if tgt[0] == "module" and tgt[1] == f.module.name:
                 inline[local + "." + short] = f
-    return Evaluator(project, nts, inline, menv)
+    return Evaluator(project, nts, inline, menv, local_module=modname if inline_local else None, no_inline=no_inline)
